@@ -1,6 +1,9 @@
 package pairs
 
 import (
+	"sort"
+	"strings"
+
 	sdk "github.com/cosmos/cosmos-sdk/types"
 
 	chain "github.com/comdex-official/comdex/app"
@@ -101,6 +104,9 @@ type PartDiff struct {
 	OnlyO int    `json:"onlyO"` // answers present only on the original
 	OnlyC int    `json:"onlyC"`
 	Chg   int    `json:"chg"`
+	// Keys names the differing answers of a point-query part by their argument tuples, e.g. "lost:[2 10]" (at most 8;
+	// empty for bulk readers and counters). It lets a known finding be keyed on the exact records concerned.
+	Keys string `json:"keys"`
 }
 
 func diffParts(o, c PartObs) PartDiff {
@@ -114,19 +120,33 @@ func diffParts(o, c PartObs) PartDiff {
 		return PartDiff{Sym: "scalar_higher", Chg: 1}
 	}
 	var d PartDiff
+	var keys []string
+	note := func(kind, k string) {
+		if strings.HasPrefix(k, "[") && k != "[]" {
+			keys = append(keys, kind+":"+k)
+		}
+	}
 	for k, v := range o.Items {
 		w, ok := c.Items[k]
 		if !ok {
 			d.OnlyO++
+			note("lost", k)
 		} else if v != w {
 			d.Chg++
+			note("chg", k)
 		}
 	}
 	for k := range c.Items {
 		if _, ok := o.Items[k]; !ok {
 			d.OnlyC++
+			note("extra", k)
 		}
 	}
+	sort.Strings(keys)
+	if len(keys) > 8 {
+		keys = append(keys[:8], "...")
+	}
+	d.Keys = strings.Join(keys, ";")
 	switch {
 	case d.OnlyO > 0 && d.OnlyC == 0 && d.Chg == 0:
 		d.Sym = "items_lost"
